@@ -151,7 +151,16 @@ pub fn drive(
         if sys.dead {
             break;
         }
-        let ds = devs(sys);
+        let mut ds = devs(sys);
+        if sys.params["wb"].as_bool().unwrap_or(false)
+            && sys.m.ctx == CtxSt::Running
+            && !sys.write_block_pending()
+            && sys.m.inbox.is_empty()
+        {
+            // persistent back-pressure on the write half (lifted by an event of its own)
+            ds.push(Ev::WriteBlock(0));
+            ds.push(Ev::WriteBlock(1));
+        }
         if !ds.is_empty() {
             let d = chz.deviate(1 + ds.len());
             if d > 0 {
@@ -161,7 +170,25 @@ pub fn drive(
                 }
             }
         }
-        let es = evs(sys);
+        let mut es = evs(sys);
+        if sys.write_block_pending() {
+            if sys.m.block_armed {
+                // which of {message handed to the stream, acknowledgement written} comes first is the
+                // implementation's choice: no inbound packet that must be acknowledged, and no fault,
+                // while it is open which write the block will hit
+                let needs_ack = |p: &SPacket| {
+                    matches!(p, SPacket::Publish { qos, .. } if *qos > 0) || matches!(p, SPacket::Ack { ty: 6, .. })
+                };
+                es.retain(|e| match e {
+                    Ev::Deliver(p) | Ev::DeliverBytewise(p) | Ev::DeliverSplit(p, _) => !needs_ack(p),
+                    Ev::DeliverBatch(v) => !v.iter().any(needs_ack),
+                    Ev::WriteErr => false,
+                    _ => true,
+                });
+            }
+            es.retain(|e| !matches!(e, Ev::WriteErr));
+            es.push(Ev::WriteUnblock);
+        }
         if es.is_empty() {
             break;
         }
